@@ -114,16 +114,16 @@ type session struct {
 	digestCur []byte
 	hist      []int
 	split     int
-	ord      int64
-	step     int
-	retained []*entry
-	digests  [][]byte // per request: (id, rendering) of every captured value in capture order (pointer-free: nothing for the GC to scan)
-	ncapt    int
-	fctxPtr  []uintptr
-	ctxPtr   []uintptr
-	clobbers int
-	unstable int
-	checked  int64
+	ord       int64
+	step      int
+	retained  []*entry
+	digests   [][]byte // per request: (id, rendering) of every captured value in capture order (pointer-free: nothing for the GC to scan)
+	ncapt     int
+	fctxPtr   []uintptr
+	ctxPtr    []uintptr
+	clobbers  int
+	unstable  int
+	checked   int64
 }
 
 // newSession builds the app of a configuration. full: serve every letter alone right away (the
@@ -599,7 +599,8 @@ func (s *session) encodeDigest(cur []*entry, lt *letter) []byte {
 	}
 	b := make([]byte, 0, n)
 	for _, e := range cur {
-		if lt.unspecified(e.Acc + "|" + e.Key) {
+		if lt.unspecified(e.Acc+"|"+e.Key) || (e.Site == "middleware-after-next" && component(e.Acc) == "response") {
+			// ... and what a middleware reads from the RESPONSE after the downstream handlers wrote it
 			s.l.Add("unspecified_skipped", 1) // String() prints a request counter; part order of a multipart Body()
 			continue
 		}
@@ -681,7 +682,7 @@ func (s *session) soloOf(li int) []byte {
 // does them all.
 func baselineOracle(l *core.Local, worker, nw int) {
 	solos := make([][][]byte, len(configs)) // digests: nothing for the GCs of the solo runs to scan
-	scratch := core.NewLocal() // the baseline counters of these throw-away sessions are not evidence
+	scratch := core.NewLocal()              // the baseline counters of these throw-away sessions are not evidence
 	group := map[string]int{}
 	for _, cf := range configs {
 		if _, ok := group[cf.Opts]; !ok {
@@ -819,8 +820,8 @@ func followers(si, lvl int) []int {
 //	          single-flag option sets: general 2; shapes 2 out of {twin, picked}.
 //	plain (quick), plain and rich (thorough): a shape letter as second request after every general letter.
 //	bare application (capture sites, sites.go): quick: plain and rich/default-context: one further request;
-//	          plain/default-context: two out of the picked followers. thorough: two everywhere, out of
-//	          every site and general letter for plain/default-context.
+//	          plain/default-context: two out of the picked followers. thorough: two out of the picked followers
+//	          for every plain and rich configuration.
 //
 // The SendFile pass (plain and rich only) is one general request shallower (never below 1) and
 // follows a shape letter by its twin only: fasthttp's file handler initialises package mime (12k
@@ -855,8 +856,6 @@ func planOf(r *core.Run, sendfile bool) func(ci int) plan {
 		case r.Quick() && (cf.Opts == "plain" || cf.Ctx == "default"):
 			p.bareK = 1
 		case r.Quick():
-		case cf.Opts == "plain" && cf.Ctx == "default":
-			p.bareK, p.bareLvl = 2, 1
 		default:
 			p.bareK, p.bareLvl = 2, 0
 		}
@@ -947,6 +946,7 @@ func forEachHistory(pl func(ci int) plan, want func(ci int, before int64) bool, 
 					})
 				}
 			}
+		}
 		if p.shapeSecond {
 			for g := 0; g < nGeneral; g++ {
 				for si := nGeneral; si < nGeneral+nShapes; si++ {
@@ -1213,7 +1213,7 @@ func main() {
 	}
 	if r.Deadline.IsZero() {
 		if r.Quick() {
-			r.Deadline = r.Start.Add(70 * time.Second)
+			r.Deadline = r.Start.Add(8 * time.Minute) // a safety net for a loaded machine: the quick tier takes ~5 CPU-minutes
 		} else {
 			r.Deadline = r.Start.Add(14 * time.Minute)
 		}
